@@ -2,4 +2,4 @@ SPECIFICATION Spec
 CHECK_DEADLOCK FALSE
 CONSTANTS
   NCases = 40
-  Stride = 3
+  Stride = 7
